@@ -49,7 +49,7 @@ def run(ctx):
         while True:
             tp = trace + ".%d" % part
             rc, out, err = ctx.run_harness(exe, [plan], trace=tp, timeout=300 if q else 1500,
-                                           env={"VERIF_STALL_MS": "1500", "VERIF_SKIP": str(skip)}, ok_codes=(0, 7))
+                                           env={"VERIF_SKIP": str(skip)}, ok_codes=(0, 7))
             if os.path.exists(tp):
                 with open(tp) as f, open(trace, "a") as g:
                     g.write(f.read())
